@@ -33,14 +33,14 @@ ALPHS = {
     "NT_EXTENDED": "ACGTURYKMSWBDHVNacgturykmswbdhvn",
     "NT_EXTENDED_GAPPED": "ACGTURYKMSWBDHVN-acgturykmswbdhvn",
 }
-WORLD = {"quick": dict(N=7, k=3, rots=2, Nl=6), "thorough": dict(N=10, k=3, rots=None, Nl=7)}
+WORLD = {"quick": dict(N=7, k=3, rots=2, Nl=6, Nodd=5), "thorough": dict(N=10, k=3, rots=None, Nl=7, Nodd=7)}
 NSH = 32
 
 
 def world_description(tier):
     w = WORLD[tier]
     return (
-        f"extraction: layouts N={w['N']} k<={w['k']} x 5 alphabets x rotations {w['rots'] or 'all'}; located sequences: layouts N={w['Nl']} k<=3; "
+        f"extraction: layouts N={w['N']} k<={w['k']} x 5 alphabets x rotations {w['rots'] or 'all'}; located sequences: layouts N={w['Nl']} k<=3; extraction / reverse strand / 2-way splits on all +zero-length and +overlap layouts N={w['Nodd']} k<=3; "
         f"scale family: {len(list(worlds.scale_layouts(tier)))} layouts with k in {worlds.SCALE_K[tier]} blocks x 2 alphabets x strands: "
         f"extraction, reverse strand, every 2/3-way split at block boundaries (+-1 for k<=6); located sequences (k<=16) sliced at "
         f"block boundaries, reverse complement, appends"
@@ -48,7 +48,7 @@ def world_description(tier):
 
 
 def shards(tier, seed):
-    return [{"tier": tier, "part": p, "i": i} for p in ("extract", "located", "scale") for i in range(NSH)]
+    return [{"tier": tier, "part": p, "i": i} for p in ("extract", "located", "scale", "odd") for i in range(NSH)]
 
 
 def genome_for(aname, N, rot):
@@ -67,6 +67,55 @@ def revcomp(text):
 def tu(text):
     """identify the RNA letter with T (a complemented U comes back as T; see C15)"""
     return text.replace("U", "T").replace("u", "t")
+
+
+def check_extract_odd(res, aname, N, bl, strand, mode):
+    """layouts with zero-length and/or OVERLAPPING blocks ("any block structure"): the extracted text is the image of the
+    library's own point-wise map (C01 decides that map; blocks that share a start may be walked in either order), the
+    reverse strand spells the reverse complement, and consecutive sub-intervals split the text."""
+    G = genome_for(aname, N, 0)
+    alpha = Alphabet[aname]
+    par = lib.seq_parent(G, alphabet=alpha)
+    L = lib.mk_loc(bl, strand, par)
+    case = dict(kind="odd", mode=mode, alphabet=aname, N=N, blocks=[list(b) for b in bl], strand=strand)
+    res.state(("odd", aname, bl, strand))
+    res.nontriv(("odd", aname, bl, strand))
+    adm = [F.splice(G, P_, strand) for P_ in M.admissible_P(bl, strand)]
+    o = lib.outcome(lambda: str(L.extract_sequence()))
+    res.trans()
+    res.note("extract-odd", mode)
+    if not adm[0]:
+        # nothing but zero-length blocks: an empty text or a documented refusal
+        if (o[0] == "ok" and o[1] != "") or (o[0] != "ok" and not lib.is_documented_exc(o[2])):
+            res.deviation("extract_sequence", case, o[1], "", sig="odd-empty")
+        return
+    if o[0] != "ok" or o[1] not in adm:
+        res.deviation("extract_sequence", case, o[1], adm[0], sig="odd-text")
+        return
+    text = o[1]
+    ln = len(text)
+    # the point-wise map spells the same text
+    o = lib.outcome(lambda: "".join(F.base(G, L.relative_to_parent_pos(r), strand) for r in range(ln)))
+    res.trans()
+    if o[0] != "ok" or o[1] != text:
+        res.deviation("extract_sequence", case, text, o[1], sig="odd-vs-pointwise")
+    # reverse strand = reverse complement
+    o = lib.outcome(lambda: str(L.reverse_strand().extract_sequence()))
+    res.trans()
+    if o[0] != "ok" or tu(o[1]) != tu(revcomp(text)):
+        res.deviation("reverse_strand.extract_sequence", case, o[1], revcomp(text), sig="odd-revstrand", same_start=len({b[0] for b in bl}) < len(bl))
+    # two-way splits (proper sub-intervals on both sides)
+    for c1 in range(1, ln):
+        o = lib.outcome(lambda: [str(L.relative_interval_to_parent_location(a, b, lib.STRAND["+"]).extract_sequence()) for a, b in ((0, c1), (c1, ln))])
+        res.trans()
+        if o[0] != "ok":
+            res.deviation("split", dict(cut=c1, **case), o[1], [text[:c1], text[c1:]], sig="odd-split-raises")
+        elif "".join(o[1]) != text:
+            if sorted("".join(o[1])) == sorted(text) and mode == "overlap":
+                # the C01-overlap-order representation limit: sub-blocks of overlapping blocks are re-sorted by start
+                res.extra["odd_split_overlap_order"] += 1
+            else:
+                res.deviation("split", dict(cut=c1, **case), o[1], [text[:c1], text[c1:]], sig="odd-split-text")
 
 
 def check_extract(res, aname, rot, N, bl, strand, scale=False):
@@ -306,6 +355,17 @@ def run_shard(shard):
                         check_extract(res, aname, rot, N, bl, strand)
         res.sample({"alphabet": "NT_EXTENDED", "genome": genome_for("NT_EXTENDED", N, 0), "blocks": [[0, 2], [4, 7]], "strand": "-",
                     "expected": X(((0, 2), (4, 7)), "-", genome_for("NT_EXTENDED", N, 0))})
+    elif part == "odd":
+        N = w["Nodd"]
+        idx = 0
+        for mode in ("empty", "overlap"):
+            for bl in worlds.layouts(N, 3, mode):
+                idx += 1
+                if idx % NSH != shard["i"]:
+                    continue
+                for strand in "+-":
+                    for aname in ("NT_EXTENDED_GAPPED", "NT_STRICT"):
+                        check_extract_odd(res, aname, N, bl, strand, mode)
     elif part == "scale":
         # the scale family (vlib/worlds.py): many blocks; cuts / slice bounds at (k<=6: within 1 of) block boundaries
         idx = 0
@@ -343,6 +403,9 @@ def run_shard(shard):
 def replay(case):
     res = ShardResult()
     bl = tuple(tuple(b) for b in case.get("blocks", []))
+    if case["kind"] == "odd":
+        check_extract_odd(res, case["alphabet"], case["N"], bl, case["strand"], case["mode"])
+        return [d for d in res.deviations if d["sig"] == case.get("_sig", d["sig"])]
     if case["kind"] == "extract":
         check_extract(res, case["alphabet"], case["rot"], case["N"], bl, case["strand"], scale=case.get("scale", False))
     elif case["kind"] == "located":
@@ -354,4 +417,18 @@ def replay(case):
     return devs or res.deviations
 
 
-MATCHERS = {}
+def _m_same_start_revstrand(d):
+    # only the defect's own input class (overlapping layout with >= 2 blocks sharing a start) and its own shape (the
+    # reverse-strand text is a permutation of the reverse complement: right bases, wrong order)
+    c = d["case"]
+    bl = c.get("blocks", [])
+    return (
+        d["sig"] == "odd-revstrand"
+        and c.get("mode") == "overlap"
+        and len({b[0] for b in bl}) < len(bl)
+        and isinstance(d["observed"], str)
+        and sorted(tu(d["observed"])) == sorted(tu(d["expected"]))
+    )
+
+
+MATCHERS = {"c03_same_start_revstrand": _m_same_start_revstrand}
